@@ -28,8 +28,14 @@
 From Coq Require Import ZArith NArith QArith String List Lia.
 From PV Require Import Gen.TedConst Ted.TedSpec Ted.TedProofs Ted.Cost Ted.CostProofs Ted.ZS Ted.TedSim Ted.TedMemo
   Ted.TedBrute Ted.BoundedDefs Ted.BoundedPython Ted.TedCorollaries Ted.ZSRefine
-  Ted.TedRight Ted.ZSPost Ted.ZSPrepare Ted.ZSTable Ted.ZSExact Ted.ZSCorollaries Ted.TaiSteps Ted.TaiUpper Ted.TaiLower.
+  Ted.TedRight Ted.ZSPost Ted.ZSPrepare Ted.ZSTable Ted.ZSExact Ted.ZSCorollaries Ted.TaiSteps Ted.TaiUpper Ted.TaiLower Tie.TedTie.
 Import ListNotations.
+
+(* tie to the code: the label predicates, multiplier cases and similarity levels of the Python cost model (Ted/Cost.v)
+   agree with the decision tables the translator evaluated from internal/analyzer/apted_cost.go (Gen/TedTables.v) *)
+Theorem C07_decision_tables : ted_tables_agree = true /\ ted_tables_nonempty = true.
+Proof. exact ted_tables_agree_ok. Qed.
+Print Assumptions C07_decision_tables.
 
 (* ---------- (a) the spec, unbounded ------------------------------------------------------------------ *)
 Theorem C07_delta_nonneg : forall c, cost_nonneg c -> forall F G, (0 <= delta c F G)%Z.
